@@ -188,8 +188,69 @@ let predict_hook (f : string list) (obs : string) : string * string * bool =
       (pred, v, true)
   | _ -> ("unknown-case", "BAD:unknown-case", false)
 
+(* hookn cases: a plugin whose config holds a nested plugin, decoded by the real hooks. *)
+let predict_hookn (f : string list) (obs : string) : string * string * bool =
+  match f with
+  | ["hookn"; req; k] ->
+      let kk = int_of_string k in
+      let inner_sh = { sh_ret = RPlugin; sh_cfg = CPtr; sh_cerr = true; sh_perr = false; sh_def = DefVal; sh_rt = TImpl } in
+      let o0 = oracle_of [] [] [] in
+      let o = { o0 with o_fill = (fun _ seen -> { va = seen.va; vb = n_of_int 6; vc = seen.vc }) } in
+      (* the inner plugin of the g-th decode of the config data: New on the inner registration *)
+      let inner g = let ng = nat_of_int g in
+        expected_arg inner_sh true o { s_alloc = ng; s_def = ng; s_fill = ng; s_ctor = ng; s_prod = O } in
+      let round g ci co =
+        (Printf.sprintf "D%d C%d:%s C%d:outer=5/c%d" g ci (s_arg (inner g)) co ci,
+         Printf.sprintf "ok:c%dp-:outer=5/c%d" co ci) in
+      let pred =
+        if req = "N" then
+          String.concat " | " ("new" :: List.init kk (fun j -> let (e, o) = round j (2 * j) (2 * j + 1) in e ^ " => " ^ o))
+        else
+          (* NewFactory decodes one trial config (constructing its inner plugin), then one per call *)
+          String.concat " | " ((Printf.sprintf "fac D0 C0:%s => ok" (s_arg (inner 0))) ::
+                               List.init kk (fun j -> let (e, o) = round (j + 1) (2 * j + 1) (2 * j + 2) in e ^ " => " ^ o)) in
+      (* specification: every call yields a product whose inner plugin was constructed during that
+         call from a fresh default overlaid by the decoded b = 6; inner plugins pairwise distinct *)
+      let ops = (match split_on_str " | " obs with _ :: r -> r | [] -> []) in
+      let check_op op =
+        match split_on_str " => " op with
+        | [e; out] ->
+            let toks = String.split_on_char ' ' e in
+            let outer = List.filter (fun t -> try let i = String.index t ':' in String.length t > i + 7 && String.sub t (i + 1) 6 = "outer=" with Not_found -> false) toks in
+            (match outer with
+             | [t] ->
+                 let i = String.index t ':' in
+                 let co = String.sub t 1 (i - 1) in
+                 let rest = String.sub t (i + 1) (String.length t - i - 1) in   (* outer=5/c<ci> *)
+                 (match String.split_on_char '/' rest with
+                  | ["outer=5"; ci] when String.length ci > 1 ->
+                      let cin = String.sub ci 1 (String.length ci - 1) in
+                      let inner_ev = List.filter (fun t -> String.length t > String.length cin + 2 && String.sub t 0 (String.length cin + 3) = "C" ^ cin ^ ":#") toks in
+                      let defs = List.filter (fun t -> String.length t > 1 && t.[0] = 'D') toks in
+                      (match inner_ev, defs with
+                       | [ie], [d] ->
+                           let n = int_of_string (String.sub d 1 (String.length d - 1)) in
+                           let eq = String.index ie '=' in
+                           let content = String.sub ie (eq + 1) (String.length ie - eq - 1) in
+                           let id = String.sub ie (String.index ie '#' + 1) (eq - String.index ie '#' - 1) in
+                           if content = Printf.sprintf "%d,6,0" (100 + n) && out = Printf.sprintf "ok:c%sp-:%s" co rest
+                           then Some (cin, id) else None
+                       | _ -> None)
+                  | _ -> None)
+             | _ -> None)
+        | _ -> None in
+      let res = List.map check_op ops in
+      let good = List.for_all (fun x -> x <> None) res && List.length ops = kk in
+      let distinct l = List.length (List.sort_uniq compare l) = List.length l in
+      let inners = List.filter_map (fun x -> x) res in
+      let ok = good && distinct (List.map fst inners) && distinct (List.map snd inners)
+               && (req = "N" || (match split_on_str " | " obs with h :: _ -> (match split_on_str " => " h with [_; "ok"] -> true | _ -> false) | [] -> false)) in
+      (pred, verdict ok "a product was not built from its own freshly decoded config (nested plugin)", kk > 1)
+  | _ -> ("unknown-case", "BAD:unknown-case", false)
+
 let predict (c : string) (obs : string) : string * string * bool =
   if String.length c > 5 && String.sub c 0 5 = "hook " then predict_hook (split_blank c) obs else
+  if String.length c > 6 && String.sub c 0 6 = "hookn " then predict_hookn (split_blank c) obs else
   let (cs, o) = case_of (split_blank c) in
   let pred = s_obs (canon_obs (run_case cs o)) in
   let v =
